@@ -776,11 +776,8 @@ Proof.
 Qed.
 
 (* states reachable by clean histories satisfy the invariant *)
-Fixpoint final (pt : ptab) (s : state) (ops : list op) : state :=
-  match ops with [] => s | o :: r => final pt (fst (step pt s o)) r end.
-
 Lemma final_Inv : forall ct0 pt ops s ls, Inv ct0 pt s ls -> clean_run pt s ops = true ->
-  exists ls', Inv ct0 pt (final pt s ops) ls'.
+  exists ls', Inv ct0 pt (final_state pt s ops) ls'.
 Proof.
   induction ops as [|o r IH]; intros s ls HI Hc; simpl; [eauto|].
   simpl in Hc. apply andb_true_iff in Hc. destruct Hc as [H1 H2].
@@ -1048,3 +1045,63 @@ Lemma stale_value_refutes : exists ops,
     (run (snd (class_tables [mkClass [] [0%nat]] 3)) (init_state (fst (class_tables [mkClass [] [0%nat]] 3))) ops)
   <> [].
 Proof. exists [OSet n_ab 5; OAdd n_ab PEvent; OGet n_ab]. vm_compute. discriminate. Qed.
+
+(* ------------------------------------------------------------------ *)
+(* Part 6: a second instance of the same class (shared cache) and classes created later *)
+
+Lemma tables_app : forall a b, tables (a ++ b) = tables_from (tables a) b.
+Proof. intros. unfold tables, tables_from. apply fold_left_app. Qed.
+
+Lemma set_ctab_same : forall T k, set_ctab T k (fst (tabs_nth T k)) = T.
+Proof.
+  unfold set_ctab, tabs_nth. induction T as [|[ct pt] r IH]; intros k; destruct k; simpl; auto.
+  f_equal. apply IH.
+Qed.
+
+(* nothing was used before the later classes are created: the staged tables are the plain ones *)
+Lemma staged_no_pre : forall h1 k h2, staged_tables h1 k [] h2 = tables (h1 ++ h2).
+Proof. intros. unfold staged_tables. simpl. rewrite set_ctab_same, tables_app. reflexivity. Qed.
+
+Lemma set_ctab_nth : forall T k ct, (k < length T)%nat -> tabs_nth (set_ctab T k ct) k = (ct, snd (tabs_nth T k)).
+Proof.
+  unfold set_ctab, tabs_nth. induction T as [|[c0 p0] r IH]; intros k ct H; simpl in H; [lia|].
+  destruct k; simpl; auto. apply IH. lia.
+Qed.
+
+Lemma staged_same_class : forall h c pre, (c < length (tables h))%nat ->
+  tabs_nth (staged_tables h c pre []) c =
+  (s_ctd (final_state (snd (tabs_nth (tables h) c)) (init_state (fst (tabs_nth (tables h) c))) pre),
+   snd (tabs_nth (tables h) c)).
+Proof. intros. unfold staged_tables. simpl. apply set_ctab_nth. auto. Qed.
+
+(* a fresh object of a class whose dictionary already caches resolved names *)
+Lemma Inv_second_instance : forall ct0 pt s ls, Inv ct0 pt s ls -> Inv ct0 pt (mkState (s_ctd s) [] []) l_init.
+Proof.
+  intros ct0 pt s ls H. constructor; simpl; auto; try discriminate.
+  - apply (inv_c1 _ _ _ _ H).
+  - apply (inv_c2 _ _ _ _ H).
+Qed.
+
+Lemma law_second_instance : forall h c pre ops i,
+  let t := class_tables h c in
+  clean_run (snd t) (init_state (fst t)) pre = true ->
+  let s2 := mkState (s_ctd (final_state (snd t) (init_state (fst t)) pre)) [] [] in
+  clean_run (snd t) s2 ops = true ->
+  law_hist (spec_rule h c) i l_init (run (snd t) s2 ops) = [].
+Proof.
+  intros h c pre ops i t Hp s2 Hc.
+  destruct (final_Inv (fst t) (snd t) pre _ _ (Inv_init (fst t) (snd t)) Hp) as [ls' HI].
+  rewrite <- (law_hist_ext _ _ (class_tables_rule h c)).
+  apply run_law_inv; auto. eapply Inv_second_instance; eauto.
+Qed.
+
+(* the second listed finding: a class created after an instance of its base was used *)
+Lemma late_class_refutes : exists h1 k pre h2 c ops,
+  let t := tabs_nth (staged_tables (roots ++ h1) k pre h2) c in
+  clean_run (snd t) (init_state (fst t)) ops = true /\
+  law_hist (spec_rule (h1 ++ h2) c) 0 l_init (run (snd t) (init_state (fst t)) ops) <> [].
+Proof.
+  exists [mkClass [([97; 95], PTyped VInt 7)] [0%nat]], 3%nat, [OSet n_ab 1],
+         [mkClass [([97; 95], PTyped VStr 102)] [3%nat]], 4%nat, [OSet n_ab 101].
+  vm_compute. split; [reflexivity|discriminate].
+Qed.
